@@ -80,6 +80,21 @@ def run(rep, tier):
                 'identical ports/registers/sensitivity' if ok else 'interface differs: %r vs %r' % (cif, ref_if))
         if not ok:
             continue
+        # the copies are shipped for synthesis: tools such as yosys define SYNTHESIS, so text under `ifdef SYNTHESIS is part of the design
+        if 'SYNTHESIS' in fe.read_source(copy):
+            dsyn = vlxml.load([copy], TOP, defines=('SYNTHESIS',))
+            csyn = interface(dsyn)
+            same = csyn == ref_if
+            rep.add('R0', copy + ':interface-with-SYNTHESIS-defined', same, copy,
+                    'identical ports/registers/sensitivity with SYNTHESIS defined' if same else
+                    'with SYNTHESIS defined (as synthesis tools do) the copy differs from processor.sv: %r vs %r' % (csyn, ref_if))
+            if same:
+                for b in (0x00, 0x35, 0xD1, 0xE5):
+                    for rst in (0, 1):
+                        s2 = summarize(dsyn, b, rst)
+                        diff = [k for k in sorted(set(cache[(b, rst)]) | set(s2)) if cache[(b, rst)].get(k) != s2.get(k)]
+                        rep.add('R1', '%s:SYNTHESIS:byte=0x%02X:rst=%d' % (copy, b, rst), not diff, copy,
+                                'differs in %s with SYNTHESIS defined' % diff if diff else 'identical with SYNTHESIS defined', nontrivial=False)
         for b in range(256):
             for rst in (0, 1):
                 s1 = cache[(b, rst)]
